@@ -47,7 +47,15 @@ impl HElem for f64 {
 }
 impl HElem for String {
     fn make(x: u64) -> Self {
-        "xé中😀".chars().cycle().skip((x % 4) as usize).take((x % 6) as usize).collect()
+        // now and then a string of more than 2 KiB
+        let n = if x % 17 == 3 { 2100 + (x % 900) as usize } else { (x % 6) as usize };
+        "xé中😀".chars().cycle().skip((x % 4) as usize).take(n).collect()
+    }
+}
+impl HElem for Vec<u8> {
+    fn make(x: u64) -> Self {
+        let n = if x % 13 == 5 { 2048 + (x % 3000) as usize } else { (x % 9) as usize };
+        (0..n).map(|i| (i as u64 ^ x) as u8).collect()
     }
 }
 impl HElem for crate::types::Unit1 {
@@ -221,6 +229,12 @@ fn deque_history<T: HElem>(plan: &Plan, st: &mut Stats, tname: &str) -> Verdict 
             "clear" => {
                 dq.clear();
                 model.clear();
+            },
+            "extend_big" => {
+                // more than one 16 KiB window of elements in one ring half
+                let k = 4200 + op.a % 5000;
+                dq.extend((0..k).map(|j| T::make((op.b + j) % 11)));
+                model.extend((0..k).map(|j| T::make((op.b + j) % 11)));
             },
             "cycle" => {
                 // push_back / pop_front cycling moves the head through the ring buffer
@@ -660,7 +674,7 @@ const KINDS: [&str; 16] = [
     "VecDeque<u8>", "VecDeque<u32>", "VecDeque<u128>", "VecDeque<String>", "VecDeque<EnumData>", "VecDeque<i16>", "VecDeque<f64>", "Vec<u32>", "Vec<String>", "String", "BTreeMap", "LinkedList", "BitVec<u8,Lsb0>", "BitVec<u8,Msb0>",
     "BitVec<u16,Lsb0>", "BitVec<u32,Msb0>",
 ];
-const KINDS2: [&str; 4] = ["BitVec<u64,Lsb0>", "VecDeque<Unit1>", "VecDeque<TrZ>", "Vec<Unit1>"];
+const KINDS2: [&str; 6] = ["BitVec<u64,Lsb0>", "VecDeque<Unit1>", "VecDeque<TrZ>", "Vec<Unit1>", "VecDeque<Vec<u8>>", "Vec<Vec<u8>>"];
 const OPS: [&str; 16] = ["push_back", "push_front", "pop_back", "pop_front", "insert", "remove", "rotate_left", "rotate_right", "make_contiguous", "reserve", "shrink_to_fit", "truncate", "drain", "extend", "clear", "cycle"];
 
 impl Scenario for History {
@@ -692,6 +706,10 @@ impl Scenario for History {
             let op = if i < grow { *rng.pick(&["push_back", "push_front", "extend", "cycle"]) } else { *rng.pick(&OPS) };
             p.ops.push(Op { op: op.to_string(), a: rng.below(1000), b: rng.below(1 << 40), v: None });
         }
+        if matches!(kind, "VecDeque<u8>" | "VecDeque<u32>" | "VecDeque<u128>" | "VecDeque<i16>" | "VecDeque<f64>") && rng.chance(1, 12) {
+            let at = rng.usize_below(p.ops.len() + 1);
+            p.ops.insert(at, Op { op: "extend_big".into(), a: rng.below(5000), b: rng.below(1 << 30), v: None });
+        }
         p
     }
     fn run(&self, plan: &Plan, st: &mut Stats) -> Verdict {
@@ -703,6 +721,8 @@ impl Scenario for History {
             "VecDeque<f64>" => deque_history::<f64>(plan, st, "f64"),
             "VecDeque<String>" => deque_history::<String>(plan, st, "String"),
             "VecDeque<EnumData>" => deque_history::<EnumData>(plan, st, "EnumData"),
+            "VecDeque<Vec<u8>>" => deque_history::<Vec<u8>>(plan, st, "Vec<u8>"),
+            "Vec<Vec<u8>>" => vec_history::<Vec<u8>>(plan, st, "Vec<u8>"),
             "VecDeque<Unit1>" => deque_history::<crate::types::Unit1>(plan, st, "Unit1"),
             "VecDeque<TrZ>" => deque_history::<crate::types::TrZ>(plan, st, "TrZ"),
             "Vec<Unit1>" => vec_history::<crate::types::Unit1>(plan, st, "Unit1"),
